@@ -106,7 +106,8 @@ theorem find_filtered_stored (cfg : TableCfg) (pol : FilterPolicy) (hf : cfg.fil
   have hsorted : StrictSorted cfg.cmp cs.flatten := by simpa using hok.sorted
   have hixs := ixE_sorted hc hsep hsucc [] cs 0 hok
   -- the unfiltered answer
-  obtain ⟨csL0, csR0, hsplit0, hall0, hhd0, hfind0⟩ := find_core cfg hc hck cs _ t hcmp hcks hfile hidx hsz hixs
+  obtain ⟨hpost, hfsz, hixl⟩ := written_file_facts cfg cs _ t hfile hsz
+  obtain ⟨csL0, csR0, hsplit0, hall0, hhd0, hfind0⟩ := find_core cfg hc hck cs t hcmp hcks hpost hidx hfsz hixl hixs
     (fun c hm => ⟨sorted_chunk cs hsorted c hm, small_chunk cs hsm c hm⟩) kv.1
   have hunf : t.find kv.1 false = .ok kv := by
     rw [hfind0, findTail_spec hc hsep hsucc kv.1 csL0 csR0 (hsplit0 ▸ hok) hall0 hhd0, ← hsplit0,
